@@ -403,13 +403,23 @@ func (s *pState) flush(cw *cwriter.Writer, height int, iter <-chan *Bar) error {
 		delete(s.queueBars, b)
 	}
 
+	var err error
 	for b := range iter {
 		frame := <-b.frameCh
 		vhook("flush.bar", b, frame.shutdown, verifErrFlag(frame.err))
-		if frame.err != nil {
-			close(s.iterDrop)
-			b.cancel()
-			return frame.err // b.frameCh is buffered it's ok to return here
+		if frame.err != nil || err != nil {
+			// Don't return right away: frames of all bars of this cycle have
+			// to be received, otherwise bars in the middle of width sync with
+			// those not rendered yet would be blocked forever.
+			if frame.err != nil {
+				if err == nil {
+					err = frame.err
+				}
+				b.cancel() // failed bar isn't pushed back
+			} else {
+				survivors = append(survivors, survivor{b, false})
+			}
+			continue
 		}
 		var usedRows int
 		for i := len(frame.rows) - 1; i >= 0; i-- {
@@ -450,6 +460,10 @@ func (s *pState) flush(cw *cwriter.Writer, height int, iter <-chan *Bar) error {
 				survivors = append(survivors, survivor{b, false})
 			}
 		}
+	}
+
+	if err != nil {
+		return err
 	}
 
 	for i := len(rows) - 1; i >= 0; i-- {
